@@ -22,22 +22,7 @@ NS_BOUNDARY = [0, 1, 999, 1000, 999999, 1000000, 1001000, 9999999, 10000000, 999
 
 # signatures of deviations established on the unchanged tree and reported to the coordinator; they are treated like
 # entries of known_findings.txt (which this check must not edit) until the coordinator lists them or repairs the code
-PENDING_KNOWN = {
-    "ctor:accepts-repeated-fractional-specifier":
-        "TimestampFormatter accepts a pattern that repeats the same fractional specifier (e.g. \"%H:%M:%S.%Qms %Qms\"); "
-        "the second one is emitted verbatim instead of the pattern being rejected",
-    "stale:time-conversion-neither-patched-nor-rejected":
-        "a conversion that prints the time of day but is neither patched nor rejected (%c %Ec %EX %OH %OI %OM %OS, "
-        "flagged forms like %-H) keeps showing the time of the last rebuild (up to 15 min local / 12 h GMT), e.g. "
-        "\"%c\" GMT 1700000000 then 1700000001",
-    "stale:local:dst-transition-off-recalc-grid":
-        "LocalTime: a UTC-offset change that is not at a multiple of 900 s (America/St_Johns, Goose_Bay, Moncton "
-        "00:01 local until 2011/2006, Antarctica/Casey 2020-2022, Asia/Gaza 2010-2011) is not seen until the next "
-        "quarter hour: hour, %z and %Z stale for up to 14 min, e.g. TZ=America/St_Johns \"%H:%M:%S %z\" 1299987000 then 1299987060",
-    "scan:literal-percent-before-TRr":
-        "\"%%\" directly followed by literal T, R or r is read as the %T/%R/%r conversion (\"%%T\" renders \"%22:13:20\" "
-        "instead of \"%T\"); same limitation as the excluded %%H..%%s, for the composite forms",
-}
+PENDING_KNOWN = {}   # all established deviations are now listed in /verif/known_findings.txt (or repaired)
 
 
 # ---------------------------------------------------------------------------------------------- zones
@@ -223,7 +208,7 @@ CURATED = [
     ["%j", " ", "%U", " ", "%W", " ", "%w", " ", "%C", " ", "%e", " ", "%g", " ", "%h", "%n", "%t", "%%"],
     ["%Y", "-", "%m", "-", "%d"], ["%S"], ["%s"], ["%p", " ", "%I"], ["%P", "%l"], ["%x", " ", "%R", " ", "%Z"],
     ["%H", "%H", "%M", "%S", "%S"], ["%%", "%H", "%%", "%%", "%M"], ["%T", "%T"], ["%r", " ", "%k", "|", "%l", "|", "%I"],
-    ["[", "%F", " ", "%T", "]"], ["%M", ":", "%S"], ["%H", "h", "%M", "m", "%S", "s"], ["%e", "/", "%m", " ", "%k", "%M"],
+    ["[", "%F", " ", "%T", "]"], [], ["%M", ":", "%S"], ["%H", "h", "%M", "m", "%S", "s"], ["%e", "/", "%m", " ", "%k", "%M"],
 ]
 
 
@@ -284,12 +269,13 @@ def canonical(shape, epoch_ok):
 class Exe:
     """one execution on the real code: a fresh TimestampFormatter(pattern, mode) in a process with TZ=zone, fed a
     sequence of instants (relative to the scenario's base)"""
-    __slots__ = ("sc", "mode", "pat", "seq", "src", "lines", "raw", "outside")
+    __slots__ = ("sc", "mode", "pat", "seq", "src", "lines", "raw", "outside", "notrun")
 
     def __init__(self, sc, mode, pat, seq, src):
         self.sc, self.mode, self.pat, self.seq, self.src = sc, mode, pat, seq, src
         self.lines = None   # trace lines (dicts) once run
         self.raw = None     # harness output lines
+        self.notrun = False   # not executed (the harness had crashed too often before its turn)
         self.outside = False  # some call had a %s for which libc's own %s is not the instant: outside the quantifier
 
     def epoch_ok(self):
@@ -322,53 +308,112 @@ def _script(exes, verbose=False):
         L.append(f"N {e.mode} {e.pat.encode().hex()}")
         for t, ns in e.seq:
             L.append(f"F {t} {ns}")
+        L.append("E")
     return "\n".join(L) + "\n"
 
 
-def run_harness(exe, zname, script, timeout=600):
+def run_harness(exe, zname, script, timeout=600, allow_crash=False):
+    """returns the harness output lines; with allow_crash also the exit status (0, 70 = died in the code under test
+    after flushing a crash line, negative = killed by a signal)"""
     d = vlib.scratch("tm")
     try:
         sp, op = d / "s.txt", d / "o.ndjson"
         sp.write_text(script)
         rc, so, se = vlib.run_cmd([exe, sp, op], timeout=timeout, env={"TZ": zname, "LC_ALL": "C", "LANG": "C"})
-        if rc != 0:
+        if rc == -9 and se == "timeout":
+            raise vlib.Infra(f"h_time timeout TZ={zname}")
+        if rc != 0 and not (allow_crash and (rc == 70 or rc < 0)):
             raise vlib.Infra(f"h_time failed rc={rc} TZ={zname}: {se[-500:]}")
-        return [json.loads(x) for x in op.read_text().splitlines()]
+        out = []
+        for x in (op.read_text().splitlines() if op.exists() else []):
+            try:
+                out.append(json.loads(x))
+            except ValueError:
+                break                   # truncated by the crash
+        return (out, rc) if allow_crash else out
     finally:
         vlib.rm(d)
 
 
+MAX_CRASHES_PER_JOB = 6
+
+
 def run_group(exe, zname, exes, consts, verbose=False):
-    """run the executions (same zone) in one harness process and attach their trace lines"""
-    out = run_harness(exe, zname, _script(exes, verbose))
+    """run the executions (same zone) in one harness process and attach their trace lines; when the code under test
+    brings the process down, the execution in progress gets a crash line and the rest is run in a new process"""
+    pending, crashes = list(exes), 0
+    while pending:
+        out, rc = run_harness(exe, zname, _script(pending, verbose), allow_crash=True)
+        done = _attach(out, pending, consts, crashed=(rc != 0))
+        if rc == 0:
+            if done != len(pending):
+                raise vlib.Infra("harness output incomplete")
+            return
+        if done == len(pending) and not pending[-1].lines[-1].get("op") == "crash":
+            raise vlib.Infra(f"h_time failed rc={rc} TZ={zname} after all executions were complete")
+        crashes += 1
+        pending = pending[done:]
+        if crashes >= MAX_CRASHES_PER_JOB:
+            for e in pending:
+                e.notrun = True
+            return
+
+
+def _attach(out, exes, consts, crashed):
+    """distribute harness output over the executions; returns how many executions were consumed (a crashed run
+    consumes up to and including the execution that was in progress)"""
     i = 0
-    for e in exes:
-        h = out[i]
-        i += 1
-        if h.get("op") != "new" or h["pat"] != e.pat:
-            raise vlib.Infra(f"harness output out of step at {e.pat!r}: {h}")
+    for n, e in enumerate(exes):
         sc = e.sc
-        lines = [{"op": "new", "pat": list(e.pat), "mode": h["mode"], "acc": h["acc"], "zone": sc.table,
-                  "bm": sc.bm(consts), "bh": sc.base // 100000, "bl": sc.base % 100000}]
-        raw = [h]
-        for (t, ns) in e.seq:
+        new = {"op": "new", "pat": list(e.pat), "mode": "gmt" if e.mode == "g" else "local", "acc": True, "zone": sc.table,
+               "bm": sc.bm(consts), "bh": sc.base // 100000, "bl": sc.base % 100000}
+        lines, raw = [new], [{"op": "new", "pat": e.pat, "acc": True}]
+        e.outside = False
+        dead = None
+        if i >= len(out) or out[i].get("op") == "crash":
+            dead = out[i] if i < len(out) else {"op": "crash", "signal": 0}
+        else:
             h = out[i]
             i += 1
-            raw.append(h)
-            if h.get("skipped"):
-                continue
-            if h["t"] != t:
-                raise vlib.Infra("harness output out of step (fmt)")
-            if h.get("sbad"):
-                e.outside = True
-            if not h["ref2ok"]:
-                raise vlib.Infra(f"libc reference is not compositional for pattern {e.pat!r}: {h}")
-            lines.append({"op": "fmt", "t": t, "ns": ns, "out": h["out"], "ref": h["ref"], "slow": h["slow"] > 0,
-                          "loc": h["loc"], "off": h["off"], "zid": sc.zid(h["off"], h["dst"], h["zn"]) if e.mode == "l" else 0,
-                          "got": h["got"]})
+            if h.get("op") != "new" or h["pat"] != e.pat:
+                raise vlib.Infra(f"harness output out of step at {e.pat!r}: {h}")
+            new["acc"] = h["acc"]
+            raw[0] = h
+            for (t, ns) in e.seq:
+                if i >= len(out) or out[i].get("op") == "crash":
+                    dead = out[i] if i < len(out) else {"op": "crash", "signal": 0}
+                    break
+                h = out[i]
+                i += 1
+                raw.append(h)
+                if h.get("skipped"):
+                    continue
+                if h["t"] != t:
+                    raise vlib.Infra("harness output out of step (fmt)")
+                if not h["ref2ok"]:
+                    raise vlib.Infra(f"libc reference is not compositional for pattern {e.pat!r}: {h}")
+                if h.get("sbad"):
+                    e.outside = True
+                lines.append({"op": "fmt", "t": t, "ns": ns, "out": h["out"], "ref": h["ref"], "slow": h["slow"] > 0,
+                              "loc": h["loc"], "off": h["off"], "zid": sc.zid(h["off"], h["dst"], h["zn"]) if e.mode == "l" else 0,
+                              "got": h["got"]})
+            else:
+                # all calls answered; the formatter is destroyed by the E command, which can still bring the process down
+                if crashed and i < len(out) and out[i].get("op") == "crash" and n + 1 <= len(exes):
+                    dead = out[i]
+                elif crashed and i >= len(out):
+                    dead = {"op": "crash", "signal": 0}
+        if dead is not None:
+            if not crashed:
+                raise vlib.Infra("harness output ended early without a crash")
+            lines.append({"op": "crash", "signal": dead.get("signal", 0)})
+            raw.append(dead)
+            e.lines, e.raw = lines, raw
+            return n + 1
         e.lines, e.raw = lines, raw
     if i != len(out):
         raise vlib.Infra("harness produced extra output")
+    return len(exes)
 
 
 def run_all(exe, exes, consts, verbose=False, per_job=4000):
@@ -425,7 +470,7 @@ def _validate_lines(lines, cfg, timeout=900):
     return r, marks
 
 
-def validate(ck, exes, consts, chunk=30000, label="TraceStrTime", par=8):
+def validate(ck, exes, consts, chunk=30000, label="TraceStrTime", par=8, count=True):
     """TLC judges every recorded execution (batch mode: one pass, every rejected line is reported).
     Returns (rejected [(exe, call index or -1 for the ctor)], drift [(exe, idx)])."""
     cfg = trace_cfg(consts, batch=True)
@@ -464,7 +509,8 @@ def validate(ck, exes, consts, chunk=30000, label="TraceStrTime", par=8):
             for l in marks["DRIFT"]:
                 drift.append(idx[l - 1])
             bad = {id(e) for e, _ in rejected}
-            ck.traces_validated += sum(1 for e in {id(x[0]): x[0] for x in idx}.values() if id(e) not in bad)
+            if count:
+                ck.traces_validated += sum(1 for e in {id(x[0]): x[0] for x in idx}.values() if id(e) not in bad)
     tv = ck.extra.setdefault("trace_validation", {"config": label, "jvm_runs": 0, "lines": 0})
     tv["jvm_runs"] += len(chunks)
     tv["lines"] += sum(len(e.lines) for e in exes)
@@ -547,6 +593,8 @@ def signature(e, j, consts):
             return "ctor:accepts-%X"
         return "ctor:rejects-supported-pattern"
     h = [x for x in e.raw[1:] if not x.get("skipped")][j]
+    if h.get("op") == "crash":
+        return "render:process-terminated"
     if h.get("thrown"):
         return "render:throws"
     t = h["t"]
@@ -554,7 +602,7 @@ def signature(e, j, consts):
     mode = "gmt" if e.mode == "g" else "local"
     if e.src == "famC-pct" and re.search(r"%%[TRr]", e.pat):
         return "scan:literal-percent-before-TRr"
-    calls = [x for x in e.raw[1:] if not x.get("skipped")]
+    calls = [x for x in e.raw[1:] if not x.get("skipped") and x.get("op") != "crash"]
     if "pieces" in h and any(_UNPATCHED.match(p[0]) for p in h["pieces"]):
         # everything as the reference says, except that the unpatched time conversions show an earlier call's instant
         for i in range(j):
@@ -580,26 +628,36 @@ def signature(e, j, consts):
 
 
 def confirm_and_report(ck, exe, rejected, consts):
-    """verdict rule: re-run each rejected execution in isolation (verbose), let TLC judge it again with the invariant,
-    and report it under its signature"""
-    per_sig = {}
+    """verdict rule: every rejected execution is run again (verbosely, fresh processes) and judged again by TLC; what
+    is rejected again is grouped by signature, and for each signature one execution is run entirely on its own and
+    must violate the trace spec's invariant before it is reported"""
     again = [Exe(e.sc, e.mode, e.pat, e.seq, e.src) for e, _ in rejected]
     run_all(exe, again, consts, verbose=True, per_job=500)
-    for e2, (_, j) in zip(again, rejected):
-        per_sig.setdefault(signature(e2, j, consts), []).append((e2, j))
+    again = [e for e in again if not e.notrun]
+    rj2, _ = validate(ck, again, consts, count=False)
+    where = {id(e): j for e, j in rj2}
+    per_sig = {}
+    for e2 in again:
+        if id(e2) not in where:
+            ck.drifted(f"rejection did not repeat when run again: {e2.describe()}")
+            continue
+        per_sig.setdefault(signature(e2, where[id(e2)], consts), []).append(e2)
     cfg1 = trace_cfg(consts, batch=False)
     for sig, L in sorted(per_sig.items()):
-        e2, j = L[0]
-        r, marks = _validate_lines(e2.lines, cfg1)
+        e3 = Exe(L[0].sc, L[0].mode, L[0].pat, L[0].seq, L[0].src)
+        run_group(exe, e3.sc.zname, [e3], consts, verbose=True)
+        r, marks = _validate_lines(e3.lines, cfg1)
         ck.add_tlc(r)
-        if r.violated != "Conforms":
-            ck.drifted(f"rejection did not repeat in isolation: {e2.describe()}")
+        if r.violated != "Conforms" or not marks["REJECT"]:
+            ck.drifted(f"rejection did not repeat in isolation: {e3.describe()}")
             continue
-        ln = e2.lines[j + 1]
-        text = (f"TZ={e2.sc.zname} {'GmtTime' if e2.mode == 'g' else 'LocalTime'} pattern {e2.pat!r}: " +
+        j = marks["REJECT"][0] - 2
+        ln = e3.lines[j + 1]
+        text = (f"TZ={e3.sc.zname} {'GmtTime' if e3.mode == 'g' else 'LocalTime'} pattern {e3.pat!r}: " +
                 (f"constructor {'accepted' if ln['acc'] else 'rejected'} it" if j < 0 else
-                 f"instants {[e2.sc.base + t for t, _ in e2.seq[:j + 1]]} ns={e2.seq[j][1]}: rendered {ln['out']!r}, strftime {ln['ref']!r}"))
-        ck.violation(sig, text, {"execution": e2.describe(), "rejected_call": j, "trace": e2.lines,
+                 f"instants {[e3.sc.base + t for t, _ in e3.seq[:j + 1]]}: process terminated by signal {ln['signal']}" if ln["op"] == "crash" else
+                 f"instants {[e3.sc.base + t for t, _ in e3.seq[:j + 1]]} ns={e3.seq[j][1]}: rendered {ln['out']!r}, strftime {ln['ref']!r}"))
+        ck.violation(sig, text, {"execution": e3.describe(), "rejected_call": j, "trace": e3.lines,
                                  "harness": "h_time", "others_same_signature": len(L) - 1})
         ck.extra.setdefault("rejections_by_signature", {})[sig] = len(L)
 
@@ -792,8 +850,8 @@ def run(ck):
     # all TLC runs on the model are independent of each other: start them together, use the results in order below
     mp = 4 if quick else 5
     sel24 = [x for x in on if "@2024" in x.name]
-    cov_scs = on if quick else sel24[:14]
-    all_sets = [(3, [on[k] for k in (1, 5, 7)] if quick else sel24)] + ([] if quick else [(4, on[1:8:3])])
+    cov_scs = on if quick else sel24[:9]
+    all_sets = [(3, [on[k] for k in (1, 5, 7)] if quick else sel24[::2])] + ([] if quick else [(4, on[1:8:6])])
     tp = ThreadPoolExecutor(max_workers=6)
     F = {"mc": tp.submit(run_model, model_cfg("MC_StrTime.cfg", consts), on, consts)}
     F["cover"] = tp.submit(run_model, model_cfg("Export_StrTime.cfg", consts, invs="", shapes="few" if quick else "all", export=True),
@@ -870,7 +928,7 @@ def run(ck):
     rx.out = ""
     if len(behs) < 1000:
         raise vlib.Infra("behaviour export produced too few sequences")
-    ex1 = exes_from_behaviours(behs, cov_scs, small, rng, pool, 1, "tlc-cover", extra_every=2 if quick else 3)
+    ex1 = exes_from_behaviours(behs, cov_scs, small, rng, pool, 1, "tlc-cover", extra_every=2 if quick else 4)
     n_tlc += len(behs)
     exes += ex1
     # all sequences up to a length bound over the reduced boundary set (no VIEW: one state per sequence)
@@ -905,7 +963,7 @@ def run(ck):
         per_zone.setdefault(s.zname, []).append(s)
     n_fam = 0
     for z, scs in sorted(per_zone.items()):
-        for s in (scs[:1] if quick else scs[:3]):
+        for s in (scs[:1] if quick else scs[:2]):
             for mode in ("g", "l"):
                 eok = epoch_allowed(s, mode)
                 w = walk(s, rng, 10 if quick else 14)
@@ -950,14 +1008,15 @@ def run(ck):
 
     # 6. the real code, then TLC as the judge
     vlib.log(f"[C13] {len(exes)} executions, {sum(len(e.seq) + 1 for e in exes)} calls; models done at {time.time() - ck.t0:.0f}s")
-    rejected, drift, n_out, kept = [], [], 0, 0
+    rejected, drift, n_out, kept, n_notrun = [], [], 0, 0, 0
     samples = {}
     B = 150000
     for b0 in range(0, len(exes), B):
         batch = exes[b0:b0 + B]
         run_all(exe, batch, consts)
         n_out += sum(1 for e in batch if e.outside)
-        batch = [e for e in batch if not e.outside]
+        n_notrun += sum(1 for e in batch if e.notrun)
+        batch = [e for e in batch if not e.outside and not e.notrun]
         kept += len(batch)
         rj, dr = validate(ck, batch, consts, chunk=25000, par=max(4, vlib.NCPU - 4))
         rejected += rj
@@ -970,7 +1029,10 @@ def run(ck):
                 e.lines = e.raw = None
         vlib.log(f"[C13] batch {b0 // B + 1}: {len(batch)} executions judged at {time.time() - ck.t0:.0f}s")
     ck.extra["executions_outside_quantifier_libc_epoch_ambiguous"] = n_out
-    exes = [e for e in exes if not e.outside]
+    exes = [e for e in exes if not e.outside and not e.notrun]
+    if n_notrun:
+        ck.extra["executions_not_run_after_repeated_crashes"] = n_notrun
+        ck.exhaustive = False
     _trace_selftest(ck, exe, consts, utc)
     vlib.log(f"[C13] validation done at {time.time() - ck.t0:.0f}s")
     for e in exes:
